@@ -129,12 +129,26 @@ TrOutput == /\ HasEvent("Output")
                     entry_differs |-> ~E.raised /\ shapeok /\ d # dense'
                   ]))
 
+\* ---- output formatting of a limited (max_returns) search: the matrix encodes exactly the triplets THAT call reports -
+\*      d at [r, q] for each reported (q, r, d), 0 elsewhere (a limited result need not be symmetric, so the orientation shows)
+TrOutputLimited ==
+    /\ HasEvent("OutputLimited") /\ UNCHANGED vars
+    /\ LET d == E.dense
+           n == Len(inp.seqs)
+           rset == { <<E.ret[x][1], E.ret[x][2], E.ret[x][3]>> : x \in 1..Len(E.ret) }
+           shapeok == Len(d) = n /\ \A r \in 1..Len(d) : Len(d[r]) = n
+       IN Consume(Named([
+            raised |-> E.raised,
+            shape_wrong |-> ~E.raised /\ ~shapeok,
+            entry_differs |-> ~E.raised /\ shapeok /\ d # DenseOf(rset, n, n)
+          ]))
+
 \* ---- a database object is queried again (C03): the index must be the one built before
 TrNewLookup == /\ HasEvent("NewLookup")
                /\ NewLookup(E.seqs2, E.k)
                /\ Consume(Named([db_mutated |-> E.db_changed]))
 
-TraceNext == TrCheckInput \/ TrSdBuildSilent \/ TrBuild \/ TrJoin \/ TrJoinLimited \/ TrOutput \/ TrNewLookup
+TraceNext == TrCheckInput \/ TrSdBuildSilent \/ TrBuild \/ TrJoin \/ TrJoinLimited \/ TrOutput \/ TrOutputLimited \/ TrNewLookup
 
 TraceSpec == TraceInit /\ [][TraceNext]_<<vars, tvars>>
 
